@@ -77,6 +77,8 @@ def run_property(pid, spec, tier="quick", repo=REPO, quiet=False, write_evidence
                 violations.append((r, f))
     floor_fail = []
     for r in results:
+        if r.rule.endswith("@release"):
+            continue    # floors were counted on the dev profile (debug assertions and overflow checks are sinks there)
         for (n, c, fl) in r.floor_failures(reference=ctx.is_reference_tree()):
             floor_fail.append((r, n, c, fl))
 
